@@ -347,7 +347,8 @@ class Analyzer:
             for s in stmts:
                 if isinstance(s, ast.Return):
                     gg = simple(s, g) if s.value is not None else g
-                    paths.append(("PReturn", list(conds), gg, src(s.value) if s.value is not None else "None"))
+                    kind = "PNotImpl" if isinstance(s.value, ast.Name) and s.value.id == "NotImplemented" else "PReturn"
+                    paths.append((kind, list(conds), gg, src(s.value) if s.value is not None else "None"))
                     return None
                 if isinstance(s, ast.Raise):
                     e = s.exc
